@@ -1,2 +1,174 @@
+//! C API driver: runs a sequence of `extern "C"` calls over a pool of value handles.
+//! case: {"api":"capi","pool":[vj..],"calls":[{"fn":name,"args":[..],"keep":bool}]}
+//! args: {"h":i} handle of the pool | null (a null pointer) | {"s":hex} C string | {"outp":1} | {"filter":text} |
+//!       {"b":bool} | {"f":hex bits} | {"n":"decimal"}
+use crate::vj;
+use libhaystack::c_api::err::last_error_message;
+use libhaystack::c_api::str::haystack_string_destroy;
+use libhaystack::c_api::value::haystack_value_destroy;
+use libhaystack::filter::Filter;
+use libhaystack::val::*;
 use serde_json::{json, Value as J};
-pub fn run(api: &str, _case: &J) -> J { json!({"bad_api": api}) }
+use std::ffi::{CStr, CString};
+use std::os::raw::c_char;
+
+pub struct St {
+    pub pool: Vec<*mut Value>,
+}
+
+include!("capi_gen.rs");
+
+fn sentinel() -> *const Value { 0x1usize as *const Value }
+
+unsafe fn arg_value(a: &J, st: &St) -> *mut Value {
+    if a.is_null() { return std::ptr::null_mut(); }
+    st.pool[a["h"].as_u64().unwrap() as usize]
+}
+
+fn arg_cstr(a: &J) -> Option<CString> {
+    if a.is_null() { return None; }
+    Some(CString::new(vj::unhex(a["s"].as_str().unwrap())).expect("case strings have no NUL"))
+}
+
+fn arg_filter(a: &J) -> Option<Box<Filter>> {
+    if a.is_null() { return None; }
+    Some(Box::new(Filter::try_from(a["filter"].as_str().unwrap()).expect("case filters parse")))
+}
+
+unsafe fn ret_cstr(p: *const c_char) -> J {
+    if p.is_null() { return J::Null; }
+    let b = CStr::from_ptr(p).to_bytes().to_vec();
+    haystack_string_destroy(p as *mut c_char);
+    json!({"s": vj::hex(&b)})
+}
+
+/// the returned box stays alive until the caller decides (kept in the pool or destroyed)
+static mut LAST_BOX: *mut Value = std::ptr::null_mut();
+
+unsafe fn ret_box(b: Option<Box<Value>>) -> J {
+    match b {
+        Some(b) => { let j = json!({"v": vj::to(&b)}); LAST_BOX = Box::into_raw(b); j }
+        None => J::Null,
+    }
+}
+
+unsafe fn outp_json(o: *const Value, st: &St) -> J {
+    if o == sentinel() { return json!("unset"); }
+    if o.is_null() { return J::Null; }
+    for (h, p) in st.pool.iter().enumerate() {
+        if p.is_null() { continue; }
+        match &**p {
+            Value::List(l) => { for (i, e) in l.iter().enumerate() { if std::ptr::eq(e, o) { return json!({"h": h, "i": i, "v": vj::to(e)}); } } }
+            Value::Dict(d) => { for (k, e) in d.iter() { if std::ptr::eq(e, o) { return json!({"h": h, "k": vj::hex(k.as_bytes()), "v": vj::to(e)}); } } }
+            _ => {}
+        }
+    }
+    json!({"dangling": true})
+}
+
+pub fn run(api: &str, case: &J) -> J {
+    match api {
+        "capi" => unsafe {
+            let mut st = St { pool: Vec::new() };
+            for v in case["pool"].as_array().unwrap() { st.pool.push(Box::into_raw(Box::new(vj::from(v)))); }
+            // start from a clean error slot
+            let e = last_error_message(); if !e.is_null() { haystack_string_destroy(e as *mut c_char); }
+            let mut results = Vec::new();
+            for c in case["calls"].as_array().unwrap() {
+                let name = c["fn"].as_str().unwrap();
+                let args = c["args"].as_array().unwrap();
+                LAST_BOX = std::ptr::null_mut();
+                let mut r = match call(name, args, &mut st) { Some(r) => r, None => json!({"unknown_fn": name}) };
+                if name == "haystack_value_destroy" && !args[0].is_null() { let h = args[0]["h"].as_u64().unwrap() as usize; st.pool[h] = std::ptr::null_mut(); }
+                if !LAST_BOX.is_null() {
+                    if c["keep"].as_bool().unwrap_or(false) { st.pool.push(LAST_BOX); r["kept"] = json!(st.pool.len() - 1); } else { haystack_value_destroy(LAST_BOX); }
+                    LAST_BOX = std::ptr::null_mut();
+                }
+                let e = last_error_message();
+                r["err"] = if e.is_null() { J::Null } else { let b = CStr::from_ptr(e).to_bytes().to_vec(); haystack_string_destroy(e as *mut c_char); J::String(vj::hex(&b)) };
+                let e2 = last_error_message();
+                r["err_cleared"] = J::Bool(e2.is_null());
+                if !e2.is_null() { haystack_string_destroy(e2 as *mut c_char); }
+                r["pool"] = J::Array(st.pool.iter().map(|p| if p.is_null() { J::Null } else { vj::to(&**p) }).collect());
+                results.push(r);
+            }
+            for p in st.pool.iter() { if !p.is_null() { haystack_value_destroy(*p); } }
+            json!({"ok": results})
+        },
+        "capi_functions" => json!({"ok": FUNCTIONS}),
+        // what the Rust API gives for the same inputs (the reference for the entry points that only forward)
+        "capi_rust" => {
+            use libhaystack::encoding::zinc;
+            use libhaystack::filter::{Filtered, ListFiltered};
+            let mut pool: Vec<Value> = case["pool"].as_array().unwrap().iter().map(vj::from).collect();
+            let name = case["fn"].as_str().unwrap();
+            let a = case["args"].as_array().unwrap();
+            let val = |i: usize, pool: &Vec<Value>| -> Option<Value> { if a[i].is_null() { None } else { Some(pool[a[i]["h"].as_u64().unwrap() as usize].clone()) } };
+            let text = |i: usize| -> Option<Option<String>> { if a[i].is_null() { None } else { Some(String::from_utf8(vj::unhex(a[i]["s"].as_str().unwrap())).ok()) } };
+            let filt = |i: usize| -> Option<Filter> { if a[i].is_null() { None } else { Some(Filter::try_from(a[i]["filter"].as_str().unwrap()).unwrap()) } };
+            let cstr_ok = |s: &str| !s.as_bytes().contains(&0);
+            let fail = |sent: J, pool: &Vec<Value>| json!({"ret": sent, "err": true, "pool": pool.iter().map(vj::to).collect::<Vec<_>>()});
+            let done = |ret: J, pool: &Vec<Value>| json!({"ret": ret, "err": false, "pool": pool.iter().map(vj::to).collect::<Vec<_>>()});
+            let out = match name {
+                "haystack_value_to_zinc_string" => match val(0, &pool) {
+                    Some(v) => match zinc::encode::to_zinc_string(&v) { Ok(s) if cstr_ok(&s) => done(json!({"s": vj::hex(s.as_bytes())}), &pool), _ => fail(J::Null, &pool) },
+                    None => fail(J::Null, &pool),
+                },
+                "haystack_value_to_json_string" => match val(0, &pool) {
+                    Some(v) => match serde_json::to_string(&v) { Ok(s) if cstr_ok(&s) => done(json!({"s": vj::hex(s.as_bytes())}), &pool), _ => fail(J::Null, &pool) },
+                    None => fail(J::Null, &pool),
+                },
+                "haystack_value_from_zinc_string" => match text(0) {
+                    Some(Some(t)) => match zinc::decode::from_str(&t) { Ok(v) => done(json!({"v": vj::to(&v)}), &pool), Err(_) => fail(J::Null, &pool) },
+                    _ => fail(J::Null, &pool),
+                },
+                "haystack_value_from_json_string" => match text(0) {
+                    Some(Some(t)) => match serde_json::from_str::<Value>(&t) { Ok(v) => done(json!({"v": vj::to(&v)}), &pool), Err(_) => fail(J::Null, &pool) },
+                    _ => fail(J::Null, &pool),
+                },
+                "haystack_filter_parse" => match text(0) {
+                    Some(Some(t)) => match Filter::try_from(t.as_str()) { Ok(f) => done(json!({"filter": f.to_string()}), &pool), Err(_) => fail(J::Null, &pool) },
+                    _ => fail(J::Null, &pool),
+                },
+                "haystack_filter_match_dict" => match (filt(0), val(1, &pool)) {
+                    (Some(f), Some(Value::Dict(d))) => done(json!({"r": if d.filter(&f) { 1 } else { 0 }}), &pool),
+                    _ => fail(json!({"r": -1}), &pool),
+                },
+                "haystack_filter_first_match_in_grid" => match (filt(0), val(1, &pool)) {
+                    (Some(f), Some(Value::Grid(g))) if !a[2].is_null() => match g.filter(&f) {
+                        Some(d) => { let h = a[2]["h"].as_u64().unwrap() as usize; pool[h] = Value::Dict(d.clone()); done(json!({"r": 1}), &pool) }
+                        None => done(json!({"r": 0}), &pool),
+                    },
+                    _ => fail(json!({"r": -1}), &pool),
+                },
+                "haystack_filter_match_all_grid" => match (filt(0), val(1, &pool)) {
+                    (Some(f), Some(Value::Grid(g))) if !a[2].is_null() => {
+                        let rows: Vec<Dict> = g.filter_all(&f).into_iter().cloned().collect();
+                        let res = match &g.meta { Some(m) => Grid::make_from_dicts_with_meta(rows, m.clone()), None => Grid::make_from_dicts(rows) };
+                        let r = if res.is_empty() { 0 } else { 1 };
+                        let h = a[2]["h"].as_u64().unwrap() as usize; pool[h] = Value::Grid(res); done(json!({"r": r}), &pool)
+                    }
+                    _ => fail(json!({"r": -1}), &pool),
+                },
+                "haystack_value_get_number_unit" => match val(0, &pool) {
+                    Some(Value::Number(n)) => match n.unit { Some(u) => done(json!({"s": vj::hex(u.symbol().as_bytes())}), &pool), None => done(J::Null, &pool) },
+                    _ => fail(J::Null, &pool),
+                },
+                "haystack_value_make_tz_datetime" => match (val(0, &pool), val(1, &pool), text(2)) {
+                    (Some(Value::Date(d)), Some(Value::Time(t)), Some(Some(z))) => {
+                        use chrono::{Offset, TimeZone};
+                        let utc = chrono::Utc.from_utc_datetime(&chrono::NaiveDateTime::new(*d, *t));
+                        match libhaystack::timezone::make_date_time_with_tz(&utc.with_timezone(&chrono::Utc.fix()), &z) {
+                            Ok(dt) => done(json!({"v": vj::to(&Value::DateTime(dt.into()))}), &pool),
+                            Err(_) => fail(J::Null, &pool),
+                        }
+                    }
+                    _ => fail(J::Null, &pool),
+                },
+                other => json!({"no_rust_reference": other}),
+            };
+            json!({"ok": out})
+        }
+        other => json!({"bad_api": other}),
+    }
+}
